@@ -1,4 +1,5 @@
 import Lemmas.RateLimiterLive
+import Lemmas.RateLimiterServe
 /-! A concrete infinite run that meets all fairness assumptions of `RL.close_returns_fair` (they are satisfiable
     together) and on which root `Close` is blocked on `done` and returns.  Core Lean. -/
 namespace RL
@@ -95,6 +96,17 @@ theorem witness_selectFair : SelectFair witness := by
   intro i h
   obtain ⟨k, hk, hs, _⟩ := h (i + 4) (by omega)
   exact absurd hs ((witness_pos k).2.2 (by omega))
+
+theorem witness_ticksServed : TicksServed witness := by
+  intro i
+  by_cases h6 : 6 ≤ i
+  · left
+    by_cases h7 : 7 ≤ i
+    · exact Or.inr (witness_ge i h7).1
+    · have : i = 6 := by omega
+      subst this; exact Or.inl rfl
+  · right
+    exact ⟨5, by omega, Or.inr ⟨rfl, rfl⟩⟩
 
 /-- on the witness run root `Close` is blocked on `done` at instant 3 and has returned at instant 4 -/
 theorem witness_close : (witness 3).cpc = .send ∧ (witness 4).cpc = .ret := ⟨rfl, rfl⟩
